@@ -204,6 +204,9 @@ class Executor:
             return o
         o = self.inst[op["k"]]
         if t == "call":
+            if op.get("unbound_kw") and not pos:
+                # the function taken from the class, `self` passed by keyword: K.m(self=o, x=...)
+                return self._finish(getattr(type(o), op.get("as", op["m"]))(self=o, **kw))
             return self._finish(getattr(o, op.get("as", op["m"]))(*pos, **kw))
         if t == "read":
             o.__class__  # an attribute read (goes through a Python-defined __getattribute__ if there is one)
